@@ -806,7 +806,7 @@ func RunC10(ctx *core.Ctx, rep *core.Report) {
 		"Each input goes through every public decode entry point in an isolated child process (address space capped at 16 GiB, stack 256 MiB, CPU watchdog of 60 CPU-s plus 300 s per GiB the call allocates (at most 12 GiB counted), an overrun re-run alone before it counts, journalled per call): lexer under 12 option combinations (4 fixed + 8 seeded out of all 256), 15 Parse*/PopulateFrom functions on the raw bytes and on every record body, NewReader/Info/ChannelCounts/GetMetadata/GetAttachmentReader at reported and boundary offsets, Messages in 8 modes. " +
 		"Oracle: no panic escapes, the process survives, CPU budget kept, no single object >= 2^31 bytes (exact per-site accounting with MemProfileRate=1 for inputs on which a single call allocated 2 GiB or more in total), and with MaxRecordSize/MaxDecompressedChunkSize = 1 MiB no object allocated by package mcap above 2 MiB + 64 KiB. distinct_nontrivial counts distinct inputs on which at least one entry point returned data or an error."
 	rep.Assumptions = []string{"panics are recovered per call inside the worker; fatal terminations are attributed through the journal", "allocation accounting: runtime.MemStats.TotalAlloc deltas (exact) as filter, runtime.MemProfile with rate 1 for attribution"}
-	nStruct, nRand, nSplice := ctx.Pick(6000, 250000), ctx.Pick(2000, 60000), ctx.Pick(1200, 40000)
+	nStruct, nRand, nSplice := ctx.Pick(6000, 80000), ctx.Pick(2000, 20000), ctx.Pick(1200, 12000)
 	if os.Getenv("VERIF_C10_STAGE") == "limits" { // self-test convenience: only the configured-limit stage
 		nStruct, nRand, nSplice = 50, 20, 20
 	}
